@@ -6,6 +6,11 @@ namespace GixModel.C04
 open GixModel GixModel.Tree
 open GixModel.Spec.C04 (Leaf FS)
 
+/-- the tree an upserted directory id stands for: nothing for the null id of a placeholder, else the
+stored tree -/
+def Grafts (store : Assoc Bytes (List Entry)) (id : Bytes) (ts : List Entry) : Prop :=
+  (id = nullId ∧ ts = []) ∨ (id ≠ nullId ∧ aget id store = some ts)
+
 theorem spec_graft_cons (n : Bytes) (p' : Path) (hp' : p' ≠ []) (sub : FS) (fs : FS) (q : Path) :
     Spec.C04.graft (n :: p') sub fs q =
       match q with
@@ -37,7 +42,7 @@ theorem spec_graft_congr (p : Path) (sub : FS) {f g : FS} (q : Path) (h : f q = 
 nothing being cached at or below `P ++ [n]` afterwards -/
 theorem lookup_tree_update {ed ed' : Ed} (hs : ed'.store = ed.store) {P : Path}
     {t t' ts : List Entry} {n : Bytes} {e' : Entry} (hfe : findName t' n = some e')
-    (hd : e'.isTree = true) (hne : e'.oid ≠ emptyTreeId) (hst : aget e'.oid ed.store = some ts)
+    (hd : e'.isTree = true) (hne : e'.oid ≠ emptyTreeId) (hst : Grafts ed.store e'.oid ts)
     (hother : ∀ m, m ≠ n → findName t' m = findName t m)
     (hframe : ∀ K, ¬ (P ++ [n]) <+: K → K ≠ P → aget K ed'.trees = aget K ed.trees)
     (hgone : ∀ K, (P ++ [n]) <+: K → aget K ed'.trees = none) (q : Path) :
@@ -55,12 +60,11 @@ theorem lookup_tree_update {ed ed' : Ed} (hs : ed'.store = ed.store) {P : Path}
       | cons m2 rest =>
         have h1 : ¬ (m :: m2 :: rest = [m]) := by simp
         simp only [h2, if_true, h1, if_false, List.length_singleton, List.drop_succ_cons, List.drop_zero]
-        have hE : (e'.oid == emptyTreeId) = false := by
-          cases h : e'.oid == emptyTreeId with
-          | false => rfl
-          | true => exact absurd (by simpa using h) hne
         have hres : resolve ed' (P ++ [m]) e'.oid = some ts := by
-          simp [resolve, hgone _ (List.prefix_refl _), hE, hs, hst]
+          rcases hst with ⟨h1, h2⟩ | ⟨h1, h2⟩
+          · have : noFind e'.oid = true := by simp [noFind, h1]
+            simp [resolve, hgone _ (List.prefix_refl _), this, h2]
+          · simp [resolve, hgone _ (List.prefix_refl _), noFind_false hne h1, hs, h2]
         rw [lookupIn_cons_dir hfe hd hres (by simp)]
         rw [lookup_store_path ed.store (m2 :: rest) ts [] (P ++ [m])]
         apply lookupIn_congr (ed := storeEd ed.store) (ed' := ed') hs
@@ -84,7 +88,7 @@ def TreeOut (ed : Ed) (P : Path) (t : List Entry) (n : Bytes) (sub : FS) (r : St
 
 theorem tree_finish {ed : Ed} (hinv : Inv ed) {P : Path} {t : List Entry}
     (hP : aget P ed.trees = some t) {n : Bytes} {t' ts : List Entry} (ht' : TreeOk t') {e' : Entry}
-    (hfe : findName t' n = some e') (hd : e'.isTree = true) (hst : aget e'.oid ed.store = some ts)
+    (hfe : findName t' n = some e') (hd : e'.isTree = true) (hst : Grafts ed.store e'.oid ts)
     (hother : ∀ m, m ≠ n → findName t' m = findName t m) (trees' : Assoc Path (List Entry))
     (hget : ∀ K, aget K trees' =
       if (P ++ [n]) <+: K then none else if K = P then some t' else aget K ed.trees)
@@ -92,7 +96,11 @@ theorem tree_finish {ed : Ed} (hinv : Inv ed) {P : Path} {t : List Entry}
     TreeOut ed P t n (lookupIn (storeEd ed.store) ts []) r := by
   have hmem := ((findName_eq_some_iff ht'.uniq).1 hfe).1
   have hinv' := inv_leaf_update hinv hP ht'
-    (fun e he _ => by rw [hfe] at he; cases he; simp [hst]) hother trees' hget ed.pathBuf
+    (fun e he _ => by
+      rw [hfe] at he; cases he
+      rcases hst with ⟨h1, _⟩ | ⟨_, h2⟩
+      · exact Or.inl (by simp [noFind, h1])
+      · exact Or.inr (by simp [h2])) hother trees' hget ed.pathBuf
   refine ⟨{ ed with trees := trees' }, t', hr, hinv', rfl, ?_, ?_, ?_⟩
   · show aget P trees' = some t'
     rw [hget]; simp [not_prefix_append_singleton P n]
@@ -116,7 +124,7 @@ theorem tree_finish {ed : Ed} (hinv : Inv ed) {P : Path} {t : List Entry}
 theorem leaf_step_upsert_tree {ed : Ed} (hinv : Inv ed) {P : Path} (hpb : ed.pathBuf = P)
     {t : List Entry} (hP : aget P ed.trees = some t) {n : Bytes} (hn : ValidName n) {k : KI}
     (hum : k.um = .normal) (hmode : k.mode = 0o040000) {ts : List Entry}
-    (hst : aget k.id ed.store = some ts) (hne : k.id ≠ emptyTreeId) :
+    (hst : Grafts ed.store k.id ts) (hne : k.id ≠ emptyTreeId) :
     TreeOut ed P t n (lookupIn (storeEd ed.store) ts []) (stepAt ed n true (some k)) := by
   have ht := hinv.trees P t hP
   have hgood : ∀ (nm : Bytes), GoodEntry ⟨0o040000, nm, k.id⟩ := fun _ _ => ⟨hne, rfl⟩
@@ -191,7 +199,7 @@ theorem editLoop_upsert_tree (k : KI) (hum : k.um = .normal) (hmode : k.mode = 0
     (hne : k.id ≠ emptyTreeId) :
     ∀ (p : Path), p ≠ [] → (∀ n ∈ p, ValidName n) →
     ∀ (ed : Ed) (P : Path) (t ts : List Entry), Inv ed → ed.pathBuf = P → aget P ed.trees = some t →
-      aget k.id ed.store = some ts →
+      Grafts ed.store k.id ts →
       EditOut ed P t (Spec.C04.graft p (lookupIn (storeEd ed.store) ts [])) (editLoop (some k) ed p) := by
   intro p
   induction p with
@@ -245,7 +253,7 @@ theorem editLoop_upsert_tree (k : KI) (hum : k.um = .normal) (hmode : k.mode = 0
 
 /-- `Editor::upsert(path, Tree, id)` with the id of a stored (non-empty-id) tree: a graft -/
 theorem upsert_tree_spec {ed : Ed} (hinv : Inv ed) {p : Path} (hp : p ≠ [] ∧ ∀ n ∈ p, ValidName n)
-    {id : Bytes} {ts : List Entry} (hst : aget id ed.store = some ts) (hne : id ≠ emptyTreeId) :
+    {id : Bytes} {ts : List Entry} (hst : Grafts ed.store id ts) (hne : id ≠ emptyTreeId) :
     ∃ ed', upsert ed p 0o040000 id = .ok ed' ∧ Inv ed' ∧ ed'.store = ed.store ∧
       abs ed' = Spec.C04.graft p (absStore ed.store ts) (abs ed) := by
   cases hroot : aget [] ed.trees with
